@@ -31,7 +31,8 @@ impl Report {
         }
     }
     fn fail(&mut self, prop: &str, what: String, replay: String) {
-        if self.fails.len() < 20 {
+        // capped per property, so that one property's failures never crowd out another's
+        if self.fails.iter().filter(|f| f.0 == prop).count() < 4 {
             self.fails.push((prop.into(), what, replay));
         }
     }
@@ -75,6 +76,7 @@ pub fn cmd_extra(args: &[String]) {
         "par" => par(&mut rep, seed, scale),
         "serde" => serde_slice(&mut rep, seed, scale),
         "fault" => fault(&mut rep, seed, scale),
+        "eqs" => eqs(&mut rep, seed, scale),
         _ => {
             eprintln!("unknown extra slice {which}");
             std::process::exit(2);
@@ -110,10 +112,15 @@ pub fn cmd_extra(args: &[String]) {
 // ------------------------------------------------------------------------------------------------
 // zero-sized elements: exhaustive enumeration of short histories on HashMap<(), ()> / HashSet<()>
 fn zst(rep: &mut Report, scale: u64) {
-    const NOPS: usize = 14;
-    let names = ["insert", "remove", "reserve(1)", "reserve(10)", "shrink_to_fit", "retain(keep)", "retain(drop)", "replace_with(Some)", "replace_with(None)", "clear", "drain", "clone", "get/iter", "set-remove-roundtrip"];
+    const NOPS: usize = 18;
+    let names = ["insert", "remove", "reserve(1)", "reserve(10)", "shrink_to_fit", "retain(keep)", "retain(drop)", "replace_with(Some)", "replace_with(None)", "clear", "drain", "clone", "get/iter", "set-remove-roundtrip",
+                 "drain_filter(true)", "drain_filter(false)", "entry.or_insert", "raw_entry.remove / clone_from / into_iter"];
+    // which properties a failing history that contains the operation speaks about (besides C01 / C05 / C13)
+    let tags: [&[&str]; NOPS] = [&["C02", "C03"], &["C03"], &["C10", "C04"], &["C10", "C04"], &["C10"], &["C09"], &["C09"], &["C12"], &["C12"], &["C06"], &["C08"], &["C11"], &["C08", "C14"], &[],
+                 &["C09"], &["C09"], &["C12"], &["C12", "C11", "C08", "C06"]];
     let depth = if scale > 1 { 6 } else { 5 };
     let total = (NOPS as u64).pow(depth as u32);
+    let mut nfail = 0;
     for code in 0..total {
         let mut seq = vec![];
         let mut c = code;
@@ -174,15 +181,49 @@ fn zst(rep: &mut Report, scale: u64) {
                         assert_eq!(m.iter().count(), present as usize, "iter count");
                         assert_eq!(m.contains_key(&()), present);
                     }
-                    _ => {
+                    13 => {
                         let mut s: HashSet<(), VBuild> = HashSet::with_hasher(VBuild::default());
                         s.insert(());
                         s.reserve(10);
                         assert!(s.remove(&()), "set remove while a resize is pending");
                         assert!(s.is_empty());
                     }
+                    14 => {
+                        let mut calls = 0;
+                        let n = m.drain_filter(|_, _| { calls += 1; true }).count();
+                        assert_eq!(calls, present as usize, "drain_filter predicate calls");
+                        assert_eq!(n, present as usize, "drain_filter yields");
+                        present = false;
+                    }
+                    15 => {
+                        let mut calls = 0;
+                        let n = m.drain_filter(|_, _| { calls += 1; false }).count();
+                        assert_eq!(calls, present as usize, "drain_filter predicate calls");
+                        assert_eq!(n, 0, "drain_filter yields");
+                    }
+                    16 => {
+                        m.entry(()).or_insert(());
+                        present = true;
+                    }
+                    _ => {
+                        let mut c2: HashMap<(), (), VBuild> = HashMap::with_hasher(VBuild::default());
+                        c2.insert((), ());
+                        c2.clone_from(&m);
+                        assert_eq!(c2.len(), present as usize, "clone_from len");
+                        assert_eq!(c2.into_iter().count(), present as usize, "into_iter count");
+                        if let griddle::hash_map::RawEntryMut::Occupied(o) = m.raw_entry_mut().from_key(&()) {
+                            assert!(present, "raw entry occupied on an empty map");
+                            o.remove();
+                            present = false;
+                        } else {
+                            assert!(!present, "raw entry vacant on a non-empty map");
+                        }
+                    }
                 }
                 assert_eq!(m.len(), present as usize, "len after step {i}");
+                assert_eq!(m.iter().count(), present as usize, "iterated elements after step {i}");
+                assert_eq!(m.keys().len(), present as usize, "iterator len after step {i}");
+                assert_eq!(m.is_empty(), !present, "is_empty after step {i}");
                 assert!(m.capacity() >= m.len(), "capacity < len");
                 let st = m.verif_state();
                 if let Some((l, _, _, cur)) = st.old {
@@ -197,10 +238,21 @@ fn zst(rep: &mut Report, scale: u64) {
         if let Err(_) = r {
             let msg = LAST_PANIC.with(|p| p.borrow().clone());
             let text: Vec<&str> = seq.iter().map(|o| names[*o]).collect();
-            for p in ["C01", "C05", "C13"] {
-                rep.fail(p, format!("HashMap<(),()> history panicked or disagreed with the reference: {}", msg.lines().last().unwrap_or("")), format!("history on HashMap<(), ()>: {}", text.join(" ; ")));
+            let mut ps: Vec<&str> = vec!["C01", "C05", "C13"];
+            for o in &seq {
+                for t in tags[*o] {
+                    if !ps.contains(t) {
+                        ps.push(t);
+                    }
+                }
             }
-            if rep.fails.len() >= 6 {
+            for p in ps {
+                if rep.fails.iter().filter(|f| f.0 == p).count() < 2 {
+                    rep.fails.push((p.into(), format!("HashMap<(),()> history panicked or disagreed with the reference: {}", msg.lines().last().unwrap_or("")), format!("history on HashMap<(), ()>: {}", text.join(" ; "))));
+                }
+            }
+            nfail += 1;
+            if nfail >= 40 {
                 break;
             }
         }
@@ -811,6 +863,43 @@ mod mini_de {
         }
         serde::forward_to_deserialize_any! { bool i8 i16 i32 i64 i128 u8 u16 u32 u64 u128 f32 f64 char str string bytes byte_buf option unit unit_struct newtype_struct seq tuple tuple_struct map struct enum identifier ignored_any }
     }
+    /// a sequence of `n` unit values (zero-sized elements)
+    pub struct Units {
+        pub n: usize,
+        pub hint: Option<usize>,
+    }
+    pub struct UnitD;
+    impl<'de> Deserializer<'de> for UnitD {
+        type Error = E;
+        fn deserialize_any<V: Visitor<'de>>(self, v: V) -> Result<V::Value, E> {
+            v.visit_unit()
+        }
+        serde::forward_to_deserialize_any! { bool i8 i16 i32 i64 i128 u8 u16 u32 u64 u128 f32 f64 char str string bytes byte_buf option unit unit_struct newtype_struct seq tuple tuple_struct map struct enum identifier ignored_any }
+    }
+    struct UA {
+        left: usize,
+        hint: Option<usize>,
+    }
+    impl<'de> SeqAccess<'de> for UA {
+        type Error = E;
+        fn next_element_seed<T: DeserializeSeed<'de>>(&mut self, seed: T) -> Result<Option<T::Value>, E> {
+            if self.left == 0 {
+                return Ok(None);
+            }
+            self.left -= 1;
+            seed.deserialize(UnitD).map(Some)
+        }
+        fn size_hint(&self) -> Option<usize> {
+            self.hint
+        }
+    }
+    impl<'de> Deserializer<'de> for Units {
+        type Error = E;
+        fn deserialize_any<V: Visitor<'de>>(self, v: V) -> Result<V::Value, E> {
+            v.visit_seq(UA { left: self.n, hint: self.hint })
+        }
+        serde::forward_to_deserialize_any! { bool i8 i16 i32 i64 i128 u8 u16 u32 u64 u128 f32 f64 char str string bytes byte_buf option unit unit_struct newtype_struct seq tuple tuple_struct map struct enum identifier ignored_any }
+    }
     pub struct Map {
         pub items: Vec<(u64, u64)>,
         pub hint: Option<usize>,
@@ -853,6 +942,90 @@ fn serde_slice(rep: &mut Report, seed: u64, scale: u64) {
     type PM = HashMap<u64, u64, VBuild>;
     type PS = HashSet<u64, VBuild>;
     let rounds = 300 * scale;
+    // zero-sized element types: every phase a one-element collection can be in
+    {
+        type ZS = HashSet<(), VBuild>;
+        let mut problems: Vec<String> = vec![];
+        for phase in 0..6u8 {
+            let build = || -> ZS {
+                let mut s = ZS::with_hasher(VBuild::default());
+                match phase {
+                    0 => {}
+                    1 => { s.insert(()); }
+                    2 => { s.insert(()); s.reserve(10); }
+                    3 => { s.insert(()); s.reserve(10); s.retain(|_| false); }
+                    4 => { s.reserve(5); }
+                    _ => { s.insert(()); s.reserve(10); s.insert(()); }
+                }
+                s
+            };
+            let r = catch_unwind(AssertUnwindSafe(|| {
+                let s = build();
+                let mut tok = vec![Token::Seq { len: Some(s.len()) }];
+                for _ in s.iter() {
+                    tok.push(Token::Unit);
+                }
+                tok.push(Token::SeqEnd);
+                serde_test::assert_ser_tokens(&s, &tok);
+                serde_test::assert_de_tokens(&s, &tok);
+                for hint in [None, Some(s.len()), Some(0), Some(1 << 40)] {
+                    let d = ZS::deserialize(mini_de::Units { n: s.len(), hint }).unwrap();
+                    assert!(d == s, "deserialized HashSet<()> differs");
+                    for n in [0usize, 1, 3] {
+                        let mut dst = build();
+                        ZS::deserialize_in_place(mini_de::Units { n, hint }, &mut dst).unwrap();
+                        assert_eq!(dst.len(), n.min(1), "deserialize_in_place into HashSet<()>");
+                        assert_eq!(dst.iter().count(), n.min(1));
+                    }
+                }
+                // maps with a zero-sized key, value, or both
+                let mut a: HashMap<(), (), VBuild> = HashMap::with_hasher(VBuild::default());
+                let mut b: HashMap<(), u8, VBuild> = HashMap::with_hasher(VBuild::default());
+                let mut c: HashMap<u8, (), VBuild> = HashMap::with_hasher(VBuild::default());
+                if phase % 2 == 1 {
+                    a.insert((), ());
+                    b.insert((), 7);
+                    for i in 0..(phase * 5) {
+                        c.insert(i, ());
+                    }
+                }
+                if phase >= 2 {
+                    a.reserve(9);
+                    b.reserve(9);
+                    c.reserve(30);
+                }
+                let mut ta = vec![Token::Map { len: Some(a.len()) }];
+                for _ in a.iter() {
+                    ta.push(Token::Unit);
+                    ta.push(Token::Unit);
+                }
+                ta.push(Token::MapEnd);
+                serde_test::assert_tokens(&a, &ta);
+                let mut tb = vec![Token::Map { len: Some(b.len()) }];
+                for (_, v) in b.iter() {
+                    tb.push(Token::Unit);
+                    tb.push(Token::U8(*v));
+                }
+                tb.push(Token::MapEnd);
+                serde_test::assert_tokens(&b, &tb);
+                let mut tc = vec![Token::Map { len: Some(c.len()) }];
+                for (k, _) in c.iter() {
+                    tc.push(Token::U8(*k));
+                    tc.push(Token::Unit);
+                }
+                tc.push(Token::MapEnd);
+                serde_test::assert_tokens(&c, &tc);
+            }));
+            rep.evaluations += 1;
+            rep.tuples.insert(format!("zst phase{phase}"));
+            if r.is_err() {
+                problems.push(format!("zero-sized elements, phase {phase}: {}", LAST_PANIC.with(|p| p.borrow().lines().last().unwrap_or("").to_string())));
+            }
+        }
+        if !problems.is_empty() {
+            rep.fail("C16", problems.join("; "), "HashSet<()> / HashMap<(),()> / HashMap<(),u8> / HashMap<u8,()> round trips; phases: 0 empty, 1 one element, 2 parked by reserve, 3 emptied in place, 4 reserved empty, 5 moved".into());
+        }
+    }
     for round in 0..rounds {
         let mut g = Rng::new(seed.wrapping_mul(4241).wrapping_add(round));
         let hk = *g.pick(&[HKind::Mul, HKind::Low]);
@@ -1300,6 +1473,19 @@ fn fault(rep: &mut Report, seed: u64, scale: u64) {
                         if text.contains("cached iterator") || text.contains("used after drop") || text.contains("dropped twice") || text.contains("canary") || text.contains("not the injected one") {
                             rep.fail("C05", text.clone(), log.join("\n"));
                         }
+                        // an interrupted clone / clone_from whose destination no longer finds what it iterates has not
+                        // "adopted the source's hasher" (C11), whatever else it lost
+                        if (op == 9 || op == 10) && (text.contains("not found by get") || text.contains("entries iterated")) {
+                            rep.fail("C11", text.clone(), log.join("\n"));
+                        }
+                        if op == 2 || op == 3 {
+                            if base_problems {
+                                rep.fail("C09", text.clone(), log.join("\n"));
+                            }
+                        }
+                        if (op == 4 || op == 5 || op == 6 || op == 12 || op == 15) && base_problems {
+                            rep.fail("C12", text.clone(), log.join("\n"));
+                        }
                         if base_problems || r.is_err() {
                             rep.fail("C07", text, log.join("\n"));
                         }
@@ -1307,7 +1493,7 @@ fn fault(rep: &mut Report, seed: u64, scale: u64) {
                     if rep.samples.len() < 2 && r.is_err() {
                         rep.samples.push(log.join(" ; "));
                     }
-                    if r.is_ok() || idx > 400 || rep.fails.len() >= 20 {
+                    if r.is_ok() || idx > 400 || rep.fails.len() >= 40 {
                         break;
                     }
                     idx += 1;
@@ -1316,4 +1502,215 @@ fn fault(rep: &mut Report, seed: u64, scale: u64) {
         }
     }
     let _ = alloc::live_tables();
+}
+
+// ------------------------------------------------------------------------------------------------
+// `==` and the read-only API over pairs of maps / sets that hold the same (or almost the same) elements in
+// different layouts, for hash-builder *types* of every shape: zero-sized (`BuildHasherDefault`), stateful with
+// equal state, stateful with different state.
+#[derive(Default, Clone)]
+pub struct ZH(u64);
+impl std::hash::Hasher for ZH {
+    fn write(&mut self, bytes: &[u8]) {
+        for b in bytes {
+            self.0 = (self.0.rotate_left(5) ^ (*b as u64)).wrapping_mul(0x517c_c1b7_2722_0a95);
+        }
+    }
+    fn finish(&self) -> u64 {
+        self.0 ^ (self.0 >> 31)
+    }
+}
+type ZB = std::hash::BuildHasherDefault<ZH>;
+
+fn eq_cases<S: std::hash::BuildHasher + Clone>(rep: &mut Report, label: &str, sa: S, sb: S, sizes: &[u64], g: &mut Rng) {
+    use std::fmt::Write as _;
+    for &n in sizes {
+        // a: plain insertion order
+        let mut a: HashMap<u64, u64, S> = HashMap::with_hasher(sa.clone());
+        for k in 0..n {
+            a.insert(k * 3, k * 10);
+        }
+        let asplit = a.verif_state().old.is_some();
+        let aorder: Vec<u64> = a.keys().copied().collect();
+        for layout in 0..6u8 {
+            // b: the same contents, laid out differently
+            let mut b: HashMap<u64, u64, S> = match layout {
+                0 => {
+                    let mut b = HashMap::with_hasher(sb.clone());
+                    b.clone_from(&a);
+                    // (clone_from adopts a's hasher; that is the point of this layout)
+                    b
+                }
+                1 => {
+                    let mut b = HashMap::with_hasher(sb.clone());
+                    for k in (0..n).rev() {
+                        b.insert(k * 3, k * 10);
+                    }
+                    b
+                }
+                2 => {
+                    let mut b = HashMap::with_capacity_and_hasher(4 * n as usize + 3, sb.clone());
+                    for k in 0..n {
+                        b.insert(k * 3, k * 10);
+                    }
+                    b
+                }
+                3 => {
+                    let mut b = HashMap::with_hasher(sb.clone());
+                    for k in 0..n + 20 {
+                        b.insert(k * 3, k * 10);
+                    }
+                    for k in n..n + 20 {
+                        b.remove(&(k * 3));
+                    }
+                    b
+                }
+                4 => {
+                    let mut b = HashMap::with_hasher(sb.clone());
+                    for k in 0..n {
+                        b.insert(k * 3, k * 10);
+                    }
+                    b.reserve(2 * n as usize + 9);
+                    b
+                }
+                _ => {
+                    let mut b = HashMap::with_hasher(sb.clone());
+                    let mut ks: Vec<u64> = (0..n).collect();
+                    for i in (1..ks.len()).rev() {
+                        ks.swap(i, g.below(i as u64 + 1) as usize);
+                    }
+                    for k in ks {
+                        b.insert(k * 3, k * 10);
+                    }
+                    b
+                }
+            };
+            let bsplit = b.verif_state().old.is_some();
+            rep.tuples.insert(format!("{label} layout{layout} a{asplit} b{bsplit}"));
+            // mutations of b: (kind, position in a's iteration order)
+            let mut muts: Vec<(u8, usize)> = vec![(0, 0)];
+            if n > 0 {
+                let last = n as usize - 1;
+                for p in [0usize, 1.min(last), last / 2, last.saturating_sub(1), last, g.below(n) as usize] {
+                    muts.push((1, p));
+                    muts.push((2, p));
+                }
+                muts.push((3, 0));
+            }
+            muts.push((4, 0));
+            for (kind, p) in muts {
+                let mut b2 = b.clone();
+                let mut expect = true;
+                let mut what = String::from("same contents");
+                match kind {
+                    1 => {
+                        let k = aorder[p];
+                        *b2.get_mut(&k).unwrap() += 1;
+                        expect = false;
+                        what = format!("value of key {k} (position {p} of the left operand's iteration) differs");
+                    }
+                    2 => {
+                        let k = aorder[p];
+                        let v = b2.remove(&k).unwrap();
+                        b2.insert(k + 1, v);
+                        expect = false;
+                        what = format!("key {k} (position {p}) replaced by {}", k + 1);
+                    }
+                    3 => {
+                        let k = aorder[0];
+                        b2.remove(&k);
+                        expect = false;
+                        what = "one element fewer".into();
+                    }
+                    4 => {
+                        b2.insert(1, 1);
+                        expect = false;
+                        what = "one element more".into();
+                    }
+                    _ => {}
+                }
+                rep.evaluations += 1;
+                let mut bad = String::new();
+                let r = catch_unwind(AssertUnwindSafe(|| {
+                    let mut bad = String::new();
+                    if (a == b2) != expect {
+                        let _ = write!(bad, "a == b is {} ; ", !expect);
+                    }
+                    if (b2 == a) != expect {
+                        let _ = write!(bad, "b == a is {} ; ", !expect);
+                    }
+                    if (a != b2) == expect {
+                        let _ = write!(bad, "a != b is {} ; ", expect);
+                    }
+                    // the same through sets of the keys (values do not exist there)
+                    let sa_: HashSet<u64, S> = {
+                        let mut s = HashSet::with_hasher(sa.clone());
+                        s.extend(a.keys().copied());
+                        s
+                    };
+                    let mut sb_: HashSet<u64, S> = HashSet::with_hasher(sb.clone());
+                    if layout % 2 == 0 {
+                        sb_.reserve(3 * b2.len() + 4);
+                    }
+                    sb_.extend(b2.keys().copied());
+                    let sexpect = kind == 0 || kind == 1;
+                    if (sa_ == sb_) != sexpect || (sb_ == sa_) != sexpect {
+                        let _ = write!(bad, "sets of the keys: == is {} / {} ; ", sa_ == sb_, sb_ == sa_);
+                    }
+                    if kind == 0 {
+                        // indistinguishable through the read-only API
+                        let mut ia: Vec<(u64, u64)> = a.iter().map(|(k, v)| (*k, *v)).collect();
+                        let mut ib: Vec<(u64, u64)> = b2.iter().map(|(k, v)| (*k, *v)).collect();
+                        ia.sort_unstable();
+                        ib.sort_unstable();
+                        if ia != ib || a.len() != b2.len() {
+                            bad.push_str("iteration multisets differ ; ");
+                        }
+                        for k in 0..3 * n + 2 {
+                            if a.get(&k) != b2.get(&k) || a.contains_key(&k) != b2.contains_key(&k) {
+                                let _ = write!(bad, "get({k}) differs ; ");
+                                break;
+                            }
+                        }
+                        let norm = |s: String| -> Vec<String> {
+                            let mut v: Vec<String> = s.trim_matches(|c| c == '{' || c == '}').split(", ").map(|x| x.to_string()).collect();
+                            v.sort();
+                            v
+                        };
+                        if norm(format!("{a:?}")) != norm(format!("{b2:?}")) {
+                            bad.push_str("Debug output differs as a multiset ; ");
+                        }
+                    }
+                    bad
+                }));
+                match r {
+                    Ok(s) => bad = s,
+                    Err(_) => bad = format!("panicked: {}", LAST_PANIC.with(|p| p.borrow().lines().last().unwrap_or("").to_string())),
+                }
+                if !bad.is_empty() {
+                    let text = format!("hash builder: {label}\na: insert keys 3*i (i < {n}) with values 10*i, in order\nb: layout {layout} (0 clone_from, 1 reverse order, 2 with_capacity(4n+3), 3 n+20 inserted then 20 removed, 4 reserve(2n+9) afterwards, 5 shuffled), then: {what}\nexpected a == b: {expect}");
+                    for p in ["C14", "C13"] {
+                        if rep.fails.iter().filter(|f| f.0 == p).count() < 3 {
+                            rep.fails.push((p.into(), format!("{label}, {n} elements, {what}: {bad}"), text.clone()));
+                        }
+                    }
+                }
+            }
+        }
+    }
+}
+
+fn eqs(rep: &mut Report, seed: u64, scale: u64) {
+    let mut g = Rng::new(seed.wrapping_mul(7919) + 5);
+    let mut sizes: Vec<u64> = (0..=64).collect();
+    sizes.extend([100, 113, 114, 120, 125, 126, 200, 225, 230, 250]);
+    if scale > 1 {
+        sizes.extend(65..=130);
+        sizes.extend([449, 460, 500, 897, 1000]);
+    }
+    eq_cases(rep, "zero-sized (BuildHasherDefault)", ZB::default(), ZB::default(), &sizes, &mut g);
+    eq_cases(rep, "stateful, equal state", VBuild { kind: HKind::Mul, seed: 3 }, VBuild { kind: HKind::Mul, seed: 3 }, &sizes, &mut g);
+    eq_cases(rep, "stateful, different state", VBuild { kind: HKind::Mul, seed: 3 }, VBuild { kind: HKind::Mul, seed: 77 }, &sizes, &mut g);
+    eq_cases(rep, "identity, different state", VBuild { kind: HKind::Id, seed: 0 }, VBuild { kind: HKind::Id, seed: 5 }, &sizes, &mut g);
+    eq_cases(rep, "griddle's default builder", griddle::hash_map::DefaultHashBuilder::default(), griddle::hash_map::DefaultHashBuilder::default(), &sizes, &mut g);
 }
